@@ -9,7 +9,8 @@
    = &File{Name: ".", Path: ".", Mode:        time.Time (tar() writes uint64(UnixNano()) of it)
    os.ModeDir | 0755}
    Next(): if fs.root != nil { hand it out,   reader_events ReaderFixed: the root first, then every
-   once }; then the members until io.EOF      member
+   once }; then the members until io.EOF,     member that is not itself a root ("./")
+   with AddRoot skipping root members
    Tar(): the first Next() fails => error     stream_sees = None for no events at all
 
    ReaderReadsFirst is Next() with the two opening blocks in the other order (a member is read
@@ -21,13 +22,31 @@ Import ListNotations.
 Definition stream_root_meta : meta := mkMeta 493 0 0 11651379494838206464.   (* 0755; uint64(time.Time{}.UnixNano()) *)
 Definition stream_root : event := ([dot], [dot], NDir stream_root_meta [] []).
 
-Inductive reader_variant := ReaderFixed | ReaderReadsFirst.
+(* ReaderFixed: the code as it is.  With AddRoot every member whose cleaned name is "." (the
+   stream's own root: "./", ".", "./.") is left out, wherever it stands:
+       for fs.addRoot && path.Clean(h.Name) == "." { ..; h, err = fs.r.Next() .. }
+   ReaderNoSkip: before commit b406c8c (no such loop).  ReaderSkipsOne: the loop written as an `if`
+   (the header read after a skipped root member is not looked at again).  ReaderReadsFirst: the
+   two opening blocks of Next() in the other order, on the code before b406c8c. *)
+Inductive reader_variant := ReaderFixed | ReaderNoSkip | ReaderSkipsOne | ReaderReadsFirst.
+
+Definition is_root_member (e : event) : bool := beq (fst (fst e)) [dot].
+
+(* the `if` variant: after a root member the next member is handed out unseen *)
+Fixpoint skip_one (ms : list event) : list event :=
+  match ms with
+  | [] => []
+  | m :: r => if is_root_member m then match r with [] => [] | m2 :: r2 => m2 :: skip_one r2 end
+              else m :: skip_one r
+  end.
 
 (* what TarReader.Next delivers until io.EOF *)
 Definition reader_events (v : reader_variant) (add_root : bool) (members : list event) : list event :=
   if add_root then
     match v with
-    | ReaderFixed => stream_root :: members
+    | ReaderFixed => stream_root :: filter (fun e => negb (is_root_member e)) members
+    | ReaderNoSkip => stream_root :: members
+    | ReaderSkipsOne => stream_root :: skip_one members
     | ReaderReadsFirst => match members with [] => [] | _ :: r => stream_root :: r end
     end
   else members.
